@@ -85,7 +85,7 @@ def main():
         repl[p] = derived(rel, s)
 
     simclock = 'simclock "github.com/aergoio/aergo/v2/zz_verif/simclock"'
-    rewrite("consensus/impl/dpos/slot/slot.go", [(r"time\.Now\(\)", "simclock.Now()", 2)], simclock)
+    rewrite("consensus/impl/dpos/slot/slot.go", [(r"time\.Now\(\)", "simclock.Now()", None)], simclock)
     rewrite("mempool/txlist.go", [(r"time\.Now\(\)", "simclock.Now()", None)], simclock)
     # the pool lock (the MemPool struct's embedded mutex) becomes a scheduling point of the POOL world;
     # without an installed scheduler simsync.RWMutex is a plain sync.RWMutex
@@ -93,7 +93,7 @@ def main():
     rewrite("mempool/mempool.go", [(r"eTime := time\.Now\(\)", "eTime := simclock.Now()", 1),
                                    (r"(?m)^\tsync\.RWMutex\n\tcfg \*cfg\.Config$", "\tsimsync.RWMutex\n\tcfg *cfg.Config", 1),
                                    # the producer fetch walks the pool in Go map order; under simulation a seeded order
-                                   (r"(?m)^Gather:\n\tfor _, list := range mp\.pool \{$", "Gather:\n\tfor _, list := range verifPoolOrder(mp.pool) {", 2)],
+                                   (r"(?m)^(\t+)for _, list := range mp\.pool \{$", r"\1for _, list := range verifPoolOrder(mp.pool) {", None)],
             simclock + "\n\t" + simsync)
     # a panic below the chain manager must surface as a Go panic, not end the simulator process
     rewrite("chain/recover.go", [(r"os\.Exit\(10\)", 'panic(fmt.Sprint("verif: RecoverExit: ", r))', 1),
